@@ -39,6 +39,8 @@ class EdgeSpanningTree(SpanningTree):
             self.root = starting_vertex
         else:
             self.root = randint(0,len(self.mesh.vertices)-1)
+        if not (0 <= self.root < len(self.mesh.vertices)):
+            raise IndexError("starting_vertex {} is not a vertex of the mesh".format(self.root))
         
         self.parent = [None]*len(self.mesh.vertices)
         self.children = [[] for _ in self.mesh.id_vertices]
